@@ -17,7 +17,7 @@
 From Coq Require Import ZArith List Bool String.
 From V Require Import Base.Int Base.IO Spec.StrftimeDoc Model.Items Gen.Strftime Model.Strftime Model.Format
   Proofs.C12 Proofs.C12Str Proofs.C12Tok Proofs.C12Fam Proofs.C12View Proofs.C12All Proofs.C12Judge Proofs.C12Lenient
-  Proofs.C12Exact Proofs.C12Exact2 Proofs.C12Exact3 Proofs.C12Exact4.
+  Proofs.C12Exact Proofs.C12Exact2 Proofs.C12Exact3 Proofs.C12Exact4 Proofs.C12Pieces.
 From V Require Import Spec.Gregorian Model.C12 Judge.C12 Proofs.C08Sweeps.
 From V Require Model.DateTime Model.Time Proofs.C12Deprecated.
 Import ListNotations.
@@ -102,7 +102,9 @@ Proof. exact parse_next_item_consumes. Qed.
 Print Assumptions C12_parse_next_item_consumes.
 
 (** ... hence iteration ends within the bound used as fuel everywhere, after at most
-    13 * (bytes of input) items, for every byte string, strict and lenient *)
+    13 * (bytes of input) items, for every byte string, strict and lenient.
+    The bound 13 * bytes is superseded, on valid UTF-8 strings, by the tight 13 * bytes / 2 of
+    C12_items_density / C12_strftime_density below. *)
 Theorem C12_strftime_terminates : forall s lenient,
   SF_ERROR_CONSUMES = true \/ lenient = true ->
   match sf_take (S (sf_bound s)) (mk_sfi s [] lenient) [] with
@@ -489,3 +491,82 @@ Theorem C12_lenient_display_exact : forall a s, utf8_valid s = true -> blen s <=
   delayed_display a (sf_new_lenient s) = write_items a (exact_items true s) [].
 Proof. exact lenient_display_exact. Qed.
 Print Assumptions C12_lenient_display_exact.
+
+(** * Source-span coverage of the exact item list, and the tight density bound (Proofs/C12Pieces.v)
+
+    [pieces l s : list (bytes * list Item)]: one piece per call of parse_next_item = (the source
+    bytes it consumed, the items it produced).  A run of text is (run, [Space run] / [Literal run]);
+    a valid specifier is ("%" ++ modifier ++ name, the items of its row) - a composite is ONE piece
+    carrying its expanded items; an invalid specifier is ("%" ++ its [bad_len] accepted bytes,
+    Literal of exactly these bytes (lenient) / Error (strict), followed by the leaked tail of the
+    composite after a `%-D`-like specifier).
+
+    pieces_items: the items of the pieces, concatenated, are the exact item list - for EVERY byte
+    string, both modes *)
+Theorem C12_pieces_items : forall l s, List.concat (map snd (pieces l s)) = exact_items l s.
+Proof. exact pieces_items. Qed.
+Print Assumptions C12_pieces_items.
+
+(** coverage, lenient mode: the source spans of the pieces, concatenated, are the whole input - no
+    byte of a valid UTF-8 format string is skipped or read twice, and (previous theorem) every item
+    comes from exactly one span *)
+Theorem C12_pieces_cover_lenient : forall s, utf8_valid s = true ->
+  List.concat (map fst (pieces true s)) = s.
+Proof. exact pieces_cover_lenient. Qed.
+Print Assumptions C12_pieces_cover_lenient.
+Theorem C12_pieces_lenient_no_stop : forall s, utf8_valid s = true ->
+  existsb stop_piece (pieces true s) = false.
+Proof. exact pieces_lenient_no_stop. Qed.
+Print Assumptions C12_pieces_lenient_no_stop.
+
+(** coverage, strict mode: the spans are a prefix of the input, [s = spans ++ tail]; the dropped
+    [tail] is empty unless there is a stopping piece ([stop_piece]: items start with [Error] and the
+    source text does not start with "%:"), and only the LAST piece can be a stopping piece - i.e.
+    the input is covered up to and including the first invalid specifier whose source is not "%:",
+    everything after it is dropped; an [Error] piece with source "%:" (incomplete colon specifier)
+    does NOT stop: parsing resumes right after the ':' (C12_pieces_examples, second line) *)
+Theorem C12_pieces_cover_strict : forall s, utf8_valid s = true ->
+  exists tail, s = List.concat (map fst (pieces false s)) ++ tail /\
+    existsb stop_piece (removelast (pieces false s)) = false /\
+    (existsb stop_piece (pieces false s) = false -> tail = []).
+Proof. exact pieces_cover_strict. Qed.
+Print Assumptions C12_pieces_cover_strict.
+
+(** the per-step count: every piece has a non-empty source span and at most 13 items per 2 bytes *)
+Theorem C12_pieces_dense : forall l s, utf8_valid s = true ->
+  Forall (fun p => (2 * List.length (snd p) <= 13 * List.length (fst p))%nat /\ fst p <> []) (pieces l s).
+Proof. exact pieces_dense. Qed.
+Print Assumptions C12_pieces_dense.
+
+(** the tight density bound, both modes: 2 * items <= 13 * bytes; reached by "%c" repeated
+    (C12_density_example: 52 items for 8 bytes).  Supersedes the 13 * bytes of
+    C12_strftime_terminates on valid UTF-8 strings. *)
+Theorem C12_items_density : forall l s, utf8_valid s = true ->
+  2 * Z.of_nat (List.length (exact_items l s)) <= 13 * blen s.
+Proof. exact items_density. Qed.
+Print Assumptions C12_items_density.
+(** ... stated on the drained iterator itself (strict and lenient, no trap, within the fuel) *)
+Theorem C12_strftime_density : forall l s, utf8_valid s = true -> blen s <= u64_max ->
+  exists L, sf_take (S (sf_bound s)) (mk_sfi s [] l) [] = Val (Some L) /\
+            2 * Z.of_nat (List.length L) <= 13 * blen s.
+Proof. exact take_density. Qed.
+Print Assumptions C12_strftime_density.
+
+(** the pieces at work: a composite is one piece; in "%Qx" the invalid specifier is the piece "%"
+    alone (the Q is text of the next piece); strict mode resumes after "%:" and stops after "%"
+    (tail "Qx%Y" dropped); "%-D" leaks the tail of the composite inside its own piece; "%c" is
+    one piece of 13 items *)
+Example C12_pieces_examples :
+  pieces true (Bs "a %c%-Dz%Qx") =
+    [(Bs "a", [Literal (Bs "a")]); (Bs " ", [Space (Bs " ")]); (Bs "%c", exact_simple (Bs "%a %b %e %H:%M:%S %Y"));
+     (Bs "%-D", Literal (Bs "%-D") :: tl (exact_simple (Bs "%m/%d/%y"))); (Bs "z", [Literal (Bs "z")]);
+     (Bs "%", [Literal (Bs "%")]); (Bs "Qx", [Literal (Bs "Qx")])] /\
+  pieces false (Bs "%:x%Y%Qx%Y") =
+    [(Bs "%:", [IError]); (Bs "x", [Literal (Bs "x")]); (Bs "%Y", [num0 N_Year]); (Bs "%", [IError])] /\
+  pieces false (Bs "%-Dx") = [(Bs "%-D", IError :: tl (exact_simple (Bs "%m/%d/%y")))] /\
+  List.length (snd (hd ([], []) (pieces false (Bs "%c")))) = 13%nat.
+Proof. exact pieces_examples. Qed.
+Print Assumptions C12_pieces_examples.
+Example C12_pieces_inhabited : utf8_valid (Bs "a %c%-Dz%Qx") = true /\ utf8_valid (Bs "%:x%Y%Qx%Y") = true.
+Proof. exact pieces_inhabited. Qed.
+Print Assumptions C12_pieces_inhabited.
